@@ -2,6 +2,7 @@ import NjectProps.C14
 import NjectProps.C15b
 import NjectProps.C03C15
 import NjectProps.IncludeEnds
+import NjectProps.C02Returned
 /-
   The include-stage theorems restated for the whole model of `Bind` (`bindModel`: named edits,
   classification, assembly, [the order reorder chose], inclusion, shadowing check, slot assignment):
@@ -303,5 +304,35 @@ theorem C14_bound_model (ti : TyInfo) (enodes : List ENode) (descs : List PDesc)
             rcases hcase with ⟨hlt, hin⟩ | ⟨_, hb⟩
             · exact Or.inl ⟨hlt, hin⟩
             · exact Or.inr hb
+
+
+theorem computeInclusion_pre (ti : TyInfo) (funcs : List CP) (cannot0 : List Nat) (ch : Chain)
+    (h : computeInclusion ti funcs cannot0 = .ok ch) : ∃ pre, inclusionBeforeFinal ti funcs cannot0 = .ok pre := by
+  unfold computeInclusion at h
+  split at h
+  · cases h
+  · rename_i pre hpre; exact ⟨pre, hpre⟩
+
+/-- **C01, whole pipeline**: whenever the model binds, every input type of an included provider is supplied by an
+    included provider listed before it that outputs the type itself or a type implementing it. -/
+theorem C01_bound_model (ti : TyInfo) (enodes : List ENode) (descs : List PDesc) (inv : Sig) (ini : Option Sig)
+    (order4 : Option (List Nat)) (cannot4 : List Nat) (bo : BindOut)
+    (h : bindModel ti enodes descs inv ini order4 cannot4 = .ok bo)
+    (j : Nat) (hj : (bo.chain.get j).inc = true) (t : Ty) (ht : t ∈ (bo.chain.get j).c.inp) (hn : t ≠ tNoType) :
+    ∃ p, p < j ∧ (bo.chain.get p).inc = true ∧ ∃ x, x ∈ (bo.chain.get p).c.out ∧ (x = t ∨ ti.implements x t = true) := by
+  obtain ⟨funcs, hc, _⟩ := bindModel_ok ti enodes descs inv ini order4 cannot4 bo h
+  obtain ⟨pre, hpre⟩ := computeInclusion_pre ti funcs cannot4 bo.chain hc
+  exact C01_bound_chain_inputs_are_supplied ti funcs cannot4 pre bo.chain hpre hc j hj t ht hn
+
+/-- **C02, whole pipeline**: whenever the model binds, every type an included provider expects from below is returned by
+    an included provider listed after it that returns the type itself or a type implementing it. -/
+theorem C02_bound_model (ti : TyInfo) (enodes : List ENode) (descs : List PDesc) (inv : Sig) (ini : Option Sig)
+    (order4 : Option (List Nat)) (cannot4 : List Nat) (bo : BindOut)
+    (h : bindModel ti enodes descs inv ini order4 cannot4 = .ok bo)
+    (j : Nat) (hj : (bo.chain.get j).inc = true) (t : Ty) (ht : t ∈ (bo.chain.get j).c.recv) (hn : t ≠ tNoType) :
+    ∃ p, j < p ∧ (bo.chain.get p).inc = true ∧ ∃ x, x ∈ (bo.chain.get p).c.ret ∧ (x = t ∨ ti.implements x t = true) := by
+  obtain ⟨funcs, hc, _⟩ := bindModel_ok ti enodes descs inv ini order4 cannot4 bo h
+  obtain ⟨pre, hpre⟩ := computeInclusion_pre ti funcs cannot4 bo.chain hc
+  exact C02_bound_chain_received_are_returned ti funcs cannot4 pre bo.chain hpre hc j hj t ht hn
 
 end Nject
